@@ -2,8 +2,14 @@
 C07 — a saved checkpoint restores an equivalent agent.
 
 Case = (algorithm, observation family, share_encoders, wrapper, seed, pre-save history).  The history
-(learn / mutate(kind) / append / act / reclone) is applied to a real agent so that architectures,
-hyper-parameters and optimizer state differ from the constructor defaults; then `save_checkpoint` writes
+(learn / mutate(kind) / append / act / reclone / restore(how)) is applied to a real agent so that architectures,
+hyper-parameters and optimizer state differ from the constructor defaults.  `restore` is an EARLIER checkpoint
+generation inside the history: the agent is saved and replaced by its restored self (how = load: `Algo.load`;
+inplace: `load_checkpoint` into another, differently built agent; rollback: the agent trains on and then
+loads its own file back), is compared with its pre-restore self (fingerprints of all state incl. wrapper
+attributes, greedy actions), and the rest of the history is applied in lock-step to the restored agent and to
+the never-restored original, which must still agree when the next generation is written ("every history before
+the save" includes earlier restores).  Then `save_checkpoint` writes
 a temporary file (outside /repo and /verif, removed afterwards) and BOTH load paths are exercised:
 `Algo.load(path)` into a new agent and `other.load_checkpoint(path)` into an existing agent that was
 built from another seed with other hyper-parameters, trained and architecture-mutated on its own.
@@ -304,6 +310,10 @@ class Case:
     def apply(self, agent, op):
         A = self.A
         k = op[0]
+        if k != "learn":
+            # re-created layers, exploration noise … draw from the global generators: an op must be a
+            # function of (agent, op) so that it can be applied in lock-step to two agents
+            A.seed_all(int(op[-1]) if len(op) > 1 and isinstance(op[-1], int) else self.seed)
         if k == "learn":
             A.learn_once(agent, self.algo, self.family, seed=op[1])
         elif k == "mutate":
@@ -328,11 +338,11 @@ class Case:
         for n in names:
             k = idx[n]
             if len(ac[n]) != len(bc[n]) or any(x != y for x, y in zip(ac[n], bc[n])):
-                self.lines.append(f"heap rebind 0 {k} " + " ".join(str(self.fresh()) for _ in ac[n]))
+                self.lines.append(f"heap rebind {self.subject} {k} " + " ".join(str(self.fresh()) for _ in ac[n]))
             else:
                 for c, (x, y) in enumerate(zip(av[n], bv[n])):
                     if x != y:
-                        self.lines.append(f"heap write 0 {k} {c} {self.fresh()}")
+                        self.lines.append(f"heap write {self.subject} {k} {c} {self.fresh()}")
 
     def run(self) -> dict:
         A = self.A
@@ -349,6 +359,73 @@ class Case:
         return res
 
     def _run(self, res):
+        with tempfile.TemporaryDirectory(prefix="c07_") as tmp:
+            self._run_in(res, tmp)
+
+    # ---- an earlier checkpoint generation inside the history
+    def restore(self, agent, how, tmp, g, names, idx):
+        """returns (restored agent, twin = the never-restored original or None, groups of the restored agent)"""
+        A = self.A
+        self.round += 1
+        path = os.path.join(tmp, f"generation{self.round}.pt")
+        what = {"load": "Algo.load(path)", "inplace": "load_checkpoint(path) into another agent",
+                "rollback": "load_checkpoint(path) back into the agent that trained on"}[how]
+        what = f"checkpoint generation {self.round} inside the history, {what}"
+        v_before, p_before = values(g), plain_state(agent)
+        agent.save_checkpoint(path)
+        blob = self.nblobs
+        self.nblobs += 1
+        self.lines.append(f"ckpt save {self.subject}")
+        A.seed_all(self.seed * 17 + self.round)
+        if how == "load":
+            new = type(inner_of(agent)).load(path)
+            self.lines += [f"ckpt load {blob}", f"heap discard {self.subject}"]
+            self.subject, self.nagents = self.nagents, self.nagents + 1
+            twin = agent
+        elif how == "inplace":
+            new = self.build(self.seed + 2000 + self.round, other=True)
+            gn = measure(new)
+            self.lines += ["ckpt spawn " + " ".join(str(len(gn[n]["parts"])) if n in gn else "0" for n in names),
+                           f"ckpt loadinto {blob} {self.nagents}", f"heap discard {self.subject}"]
+            self.subject, self.nagents = self.nagents, self.nagents + 1
+            new.load_checkpoint(path)
+            twin = agent
+        else:
+            # the agent moves on, then returns to the saved state: no second object to compare with
+            A.learn_once(agent, self.algo, self.family, seed=700 + self.round)
+            g2 = measure(agent)
+            self.mirror(g, g2, names, idx)
+            agent.load_checkpoint(path)
+            self.lines.append(f"ckpt loadinto {blob} {self.subject}")
+            new, twin = agent, None
+        gn = measure(new)
+        if type(new) is not type(agent):
+            self.problems.append(f"{what}: restored a {type(new).__name__}, saved a {type(agent).__name__}")
+            return new, None, gn
+        if twin is not None:
+            self.problems += compare(twin, new, f"{what} vs the agent that was saved", g, gn)
+            if not self.problems:
+                obs = A.sample_obs(twin, self.algo, self.family, 8, seed=self.seed + 31 * self.round)
+                a1 = A.greedy_action(twin, self.algo, copy.deepcopy(obs), torch_seed=5)
+                a2 = A.greedy_action(new, self.algo, copy.deepcopy(obs), torch_seed=5)
+                from c01 import same_value
+                if not same_value(a1, a2):
+                    self.problems.append(f"{what}: the restored agent picks different greedy actions")
+                if self.wrapper:          # acting in training mode moved the wrapper's statistics on both
+                    gn = measure(new)
+        else:
+            if values(gn) != v_before:
+                bad = [n for n in names if values(gn).get(n) != v_before.get(n)]
+                self.problems.append(f"{what}: {bad[:3]} differ from the state at save time")
+            pn = plain_state(new)
+            for k in sorted(set(pn) | set(p_before)):
+                if pn.get(k) != p_before.get(k):
+                    self.problems.append(f"{what}: {k} differs from the state at save time: "
+                                         f"{short(p_before.get(k))} vs {short(pn.get(k))}")
+        self.tags.append("restore-" + how)
+        return new, twin, gn
+
+    def _run_in(self, res, tmp):
         A = self.A
         agent = self.build(self.seed)
         g = measure(agent)
@@ -358,9 +435,23 @@ class Case:
         sizes = [len(g[n]["parts"]) for n in names]
         self.lines = ["heap mode repaired",
                       "heap new " + " ".join(g[n]["kind"] for n in names) + " / " + " ".join(map(str, sizes))]
+        self.subject, self.nagents, self.nblobs, self.round = 0, 1, 0, 0
+        twin, twin_since = None, 0
         # ---- history before the save
         for op in self.ops:
             before = g
+            if op[0] == "restore":
+                if twin is not None:
+                    self.check_twin(twin, agent, twin_since, g)
+                twin = None
+                gc.collect()
+                if self.problems:
+                    return
+                agent, twin, g = self.restore(agent, op[1], tmp, g, names, idx)
+                twin_since = self.round
+                if self.problems:
+                    return
+                continue
             try:
                 agent = self.apply(agent, op)
             except InfraError:
@@ -371,13 +462,38 @@ class Case:
                 res.setdefault("skipped", []).append(f"{op}: {type(e).__name__}: {str(e)[:120]}")
                 g = measure(agent)
                 self.mirror(before, g, names, idx)
+                if twin is not None:
+                    try:
+                        twin = self.apply(twin, op)
+                        self.problems.append(f"{op[0]} raised {type(e).__name__} on the agent restored in generation "
+                                             f"{twin_since} but not on the never-restored original: {str(e)[:160]}")
+                        return
+                    except InfraError:
+                        raise
+                    except Exception:
+                        pass
                 continue
+            if twin is not None:
+                try:
+                    twin = self.apply(twin, op)
+                except InfraError:
+                    raise
+                except Exception as e:
+                    self.problems.append(f"{op[0]} raised {type(e).__name__} on the never-restored original but not on "
+                                         f"the agent restored in generation {twin_since}")
+                    return
             g = measure(agent)
             if list(g.keys()) != names:
                 self.problems.append(f"{op[0]} changed the attribute set: {sorted(set(g) ^ set(names))}")
                 return
             self.mirror(before, g, names, idx)
             self.tags.append(op[0] if op[0] != "mutate" else "mutate-" + op[1])
+        if twin is not None:
+            self.check_twin(twin, agent, twin_since, g)
+            twin = None
+            gc.collect()
+            if self.problems:
+                return
         g0 = g
         sizes = [len(g0[n]["parts"]) for n in names]
         det_cells = [(idx[n], 1) for n in names if g0[n]["detached"]]
@@ -387,31 +503,43 @@ class Case:
         p_at_save = plain_state(agent)
         inner = inner_of(agent)
         # ---- save
-        with tempfile.TemporaryDirectory(prefix="c07_") as tmp:
-            path = os.path.join(tmp, "agent.pt")
-            agent.save_checkpoint(path)
-            self.lines += ["heap view 0", "ckpt save 0"]
-            g0s = measure(agent)
-            if values(g0s) != v_at_save or plain_state(agent) != p_at_save:
-                self.problems.append("save_checkpoint changed the agent it saved")
-            # ---- path A: Algo.load(path) under an unrelated RNG state
-            A.seed_all(self.seed * 7 + 11)
-            cls = type(inner)
-            new = cls.load(path)
-            self.lines.append("ckpt load 0")
-            # ---- path B: load_checkpoint into an existing, differently initialised agent
-            other = self.build(self.seed + 1000, other=True)
-            try:
-                other = self.apply(other, ["learn", 5])
-                other = self.apply(other, ["mutate", "arch", self.seed + 3])
-            except Exception:
-                pass
-            go = measure(other)
-            self.lines.append("ckpt spawn " + " ".join(str(len(go[n]["parts"])) if n in go else "0" for n in names))
-            A.seed_all(self.seed * 13 + 5)
-            other.load_checkpoint(path)
-            self.lines.append("ckpt loadinto 0 2")
-            self._after_loads(res, agent, new, other, g0, v_at_save, p_at_save, names, idx, det_cells, path)
+        path = os.path.join(tmp, "agent.pt")
+        agent.save_checkpoint(path)
+        S, blob = self.subject, self.nblobs
+        self.save_at = len(self.lines)
+        self.lines += [f"heap view {S}", f"ckpt save {S}"]
+        g0s = measure(agent)
+        if values(g0s) != v_at_save or plain_state(agent) != p_at_save:
+            self.problems.append("save_checkpoint changed the agent it saved")
+        # ---- path A: Algo.load(path) under an unrelated RNG state
+        A.seed_all(self.seed * 7 + 11)
+        cls = type(inner)
+        new = cls.load(path)
+        self.lines.append(f"ckpt load {blob}")
+        n1 = self.nagents
+        # ---- path B: load_checkpoint into an existing, differently initialised agent
+        other = self.build(self.seed + 1000, other=True)
+        try:
+            other = self.apply(other, ["learn", 5])
+            other = self.apply(other, ["mutate", "arch", self.seed + 3])
+        except Exception:
+            pass
+        go = measure(other)
+        self.lines.append("ckpt spawn " + " ".join(str(len(go[n]["parts"])) if n in go else "0" for n in names))
+        n2 = n1 + 1
+        A.seed_all(self.seed * 13 + 5)
+        other.load_checkpoint(path)
+        self.lines.append(f"ckpt loadinto {blob} {n2}")
+        self.model_ids = {0: S, 1: n1, 2: n2}
+        self._after_loads(res, agent, new, other, g0, v_at_save, p_at_save, names, idx, det_cells, path)
+
+    def check_twin(self, twin, agent, since, g_agent):
+        """the agent restored in generation `since` and the never-restored original went through the same
+        further history: they must still agree (continued learning / acting / mutation after a restore)"""
+        self.problems += compare(twin, agent, f"after the same further history the agent restored in checkpoint "
+                                              f"generation {since} vs the never-restored original", None, g_agent)
+        if not self.problems:
+            self.tags.append("lockstep-after-restore-checked")
 
     def _after_loads(self, res, agent, new, other, g0, v_at_save, p_at_save, names, idx, det_cells, path):
         A = self.A
@@ -420,6 +548,7 @@ class Case:
             self.problems.append(f"load() returned a {type(new).__name__}, saved a {type(agent).__name__}")
             return
         g0b, g1, g2 = measure(agent), measure(new), measure(other)
+        mid = self.model_ids
         # ---------------- implementation observables (same order as the model probes below)
         def eq_pattern(ga, gb):
             va, vb = values(ga), values(gb)
@@ -429,21 +558,21 @@ class Case:
         impl = [eq_pattern(g0, g0b),                 # frame: the original is untouched by save + loads
                 eq_pattern(g0, g1),                  # new agent == original, cell by cell
                 eq_pattern(g0, g2),                  # existing agent == original, cell by cell
-                " ".join(sorted(f"{i}.{idx[a]}={j}.{idx[b]}" for i, a, j, b in pairs if a in idx and b in idx))]
+                " ".join(sorted(f"{mid[i]}.{idx[a]}={mid[j]}.{idx[b]}" for i, a, j, b in pairs if a in idx and b in idx))]
         res["impl"] = impl
         # ---------------- model
-        probes = ["heap view 0", "heap view 1", "heap view 2", "heap alias"]
+        probes = [f"heap view {mid[0]}", f"heap view {mid[1]}", f"heap view {mid[2]}", "heap alias"]
         out = self.chk.driver.run(["reset"] + self.lines + probes)[1:]
         if any(o == "bad-op" for o in out) or "reject" in out:
-            raise InfraError(f"driver rejected a C07 op: {list(zip(self.lines + probes, out))[-8:]}")
+            raise InfraError(f"driver rejected a C07 op: {[(l, o) for l, o in zip(self.lines + probes, out) if o in ('bad-op', 'reject')][:4]}")
         self.chk.corr["model_lines"] += len(out)
-        view_at_save = out[self.lines.index("ckpt save 0") - 1]
+        view_at_save = out[self.save_at]
         res["model"] = self.model_obs(view_at_save, out[-4:])
         res["diff"] = next((i for i, (a, b) in enumerate(zip(impl, res["model"])) if a != b), None)
         if res["diff"] is not None and det_cells:
             # does the implementation behave like the unrepaired model?
             fills = " ".join(f"{k}.{c}=i{self.fresh()}" for k, c in det_cells)
-            lines2 = [ln + " " + fills if ln in ("ckpt load 0", "ckpt loadinto 0 2") else ln for ln in self.lines]
+            lines2 = [ln + " " + fills if ln.startswith(("ckpt load ", "ckpt loadinto ")) else ln for ln in self.lines]
             out2 = self.chk.driver.run(["reset"] + lines2 + probes)[1:]
             res["unrepaired_match"] = self.model_obs(view_at_save, out2[-4:]) == impl
         # ---------------- oracle: the statement
@@ -508,12 +637,15 @@ def gen_history(rng: random.Random, length: int, algo: str, wrapper):
         elif r < 0.75:
             kind = "arch" if rng.random() < 0.5 else rng.choice(MUT_KINDS)
             ops.append(["mutate", kind, rng.randrange(1000)])
-        elif r < 0.85:
+        elif r < 0.82:
             ops.append(["append", rng.randrange(100)])
-        elif r < 0.93:
+        elif r < 0.88:
             ops.append(["act", rng.randrange(1000)])
-        else:
+        elif r < 0.91:
             ops.append(["reclone"])
+        else:
+            # an earlier checkpoint generation: save -> restore -> the history goes on with the restored agent
+            ops.append(["restore", rng.choice(["load", "load", "inplace", "inplace", "rollback"])])
     # usually end with training, so that optimizer moments exist and targets lag behind at the save
     if rng.random() < 0.8:
         ops.append(["learn", rng.randrange(1000)])
@@ -545,8 +677,13 @@ def case_list(chk: Check):
                     cases.append((algo, fam, share, None, rng.randrange(1 << 20), gen_history(rng, length, algo, None)))
     # AgentWrapper variants (RSNorm supports the off-policy single-agent algorithms)
     wrapped = ["DQN", "DDPG"] if quick else ["DQN", "DDPG", "TD3", "RainbowDQN", "CQN"]
-    for algo in wrapped:
+    for wi, algo in enumerate(wrapped):
+        # wrapped agents: at least two generations, the wrapper's statistics move between them
+        hows = ["inplace", "load"] if wi % 2 == 0 else ["load", "inplace"]
         ops = gen_history(rng, length, algo, "RSNorm") + [["act", rng.randrange(1000)]]
+        ops += [["restore", hows[0]], ["act", rng.randrange(1000)], ["learn", rng.randrange(1000)]]
+        if not quick or rng.random() < 0.5:
+            ops += [["restore", hows[1]], ["act", rng.randrange(1000)]]
         cases.append((algo, "vector", None, "RSNorm", rng.randrange(1 << 20), ops))
     if quick:       # one random non-vector family per run
         for _ in range(2):
@@ -602,7 +739,9 @@ def kind_of(problem: str) -> str:
 
 
 def run(chk: Check) -> None:
-    chk.rule = ("pre-save histories of learn / mutate(kind) / append / act / reclone on real agents of all eleven "
+    chk.rule = ("pre-save histories of learn / mutate(kind) / append / act / reclone / restore(load|inplace|rollback: "
+                "an earlier save+load generation, after which the restored agent and the never-restored original go "
+                "through the rest of the history in lock-step) on real agents of all eleven "
                 "algorithms (tiny networks; share_encoders on and off; RSNorm-wrapped variants), then save_checkpoint "
                 "and both load paths; distinct = distinct (algo, family, share_encoders, wrapper, seed, history); "
                 "non-trivial = history contains an architecture or hyper-parameter mutation or leaves optimizer state")
